@@ -19,6 +19,9 @@ def run(rep, idx, tier):
     rep.require("C17.1", 8)
     rep.require("C17.2", 4)
     rep.require("C17.3", 8)
+    rep.require("C17.4", 1)
+    from .c19 import shared_state
+    shared_state(rep, idx, rule="C17.4", classes=["Builder"])
     add(rep, idx)
     scopes(rep, idx)
     as_memory_map(rep, idx)
